@@ -256,6 +256,14 @@ def b_failures(ctx):
             idx[level] = idx[level] + 2**31
             big.index = pd.MultiIndex.from_frame(idx)
             out.append((f'{level}-beyond-int32', big))
+            # the exact limits: the largest id equal to 2^31, the smallest equal to -2^31 - 1 (added after seed C20-c, which accepted 2^31)
+            for tag, pick, value in (('equals-2^31', 'max', 2**31), ('equals-minus-2^31-minus-1', 'min', -2**31 - 1)):
+                edge = good.copy()
+                idx = edge.index.to_frame(index=False)
+                target = idx[level].max() if pick == 'max' else idx[level].min()
+                idx.loc[idx[level] == target, level] = value
+                edge.index = pd.MultiIndex.from_frame(idx)
+                out.append((f'{level}-{tag}', edge))
         return good, out
 
     cases = [(dim, seed) for dim in (2, 3) for seed in (1, 2, 3)]
@@ -368,6 +376,7 @@ META = {
 # ---------------------------------------------------------------------------------------------
 import z3                                     # noqa: E402
 from pv.api import obligation                 # noqa: E402
+from pv.sym import SV                         # noqa: E402
 
 EX = 'pylife/vmap/vmap_export.py::VMAPExport'
 LAYOUT = {'VMAP': {'GEOMETRY': {}, 'VARIABLES': {}, 'SYSTEM': {}, 'MATERIAL': {}}}
@@ -626,3 +635,71 @@ def add_variable_rollback(o):
     _variable_rollback(o, 'caller-supplied columns and location', 'XX', lambda world, Havoc: {'column_names': Havoc(world, 'column_names'), 'location': Havoc(world, 'location')})
     o.trusted("abstract HDF5 file (pv/ghost.py): h5py item access / create_group / create_dataset / del / attrs behave as modelled; del removes the whole subtree atomically")
     o.trusted("exceptions are of class Exception (KeyboardInterrupt / SystemExit inside the export are not rolled back)")
+
+
+@obligation('C20', 'ids.int32-guard', functions=[EX + '._fail_if_ids_exceed_int32'])
+def int32_guard(o):
+    """VMAPExport._fail_if_ids_exceed_int32(mesh) raises exactly when a non-empty id level has a smallest id < -2^31 or a largest id > 2^31 - 1, i.e. exactly when
+    an identifier does not fit the 32 bit integers the datasets are written with (dtype=np.int32 would wrap it silently): every id that passes is stored unchanged"""
+    from pv.interp import Obj, Rec, Builtin
+    lims = {}
+    lens = {}
+
+    class Ids:
+        def __init__(self, level):
+            self.level = level
+            if level not in lims:
+                lo, hi, n = o.int(f'min_{level}'), o.int(f'max_{level}'), o.int(f'n_{level}')
+                o.assume(n >= 0, z3.Implies(n > 0, lo <= hi))
+                lims[level], lens[level] = (lo, hi), n
+
+        def pv_len(self):
+            return SV(lens[self.level])
+
+        def pv_getattr(self, attr):
+            if attr in ('min', 'max'):
+                return Builtin(attr, lambda: SV(lims[self.level][0 if attr == 'min' else 1]))
+            raise AttributeError(attr)
+
+    class Index:
+        def pv_getattr(self, attr):
+            if attr == 'get_level_values':
+                return Builtin('get_level_values', lambda level: Ids(level))
+            raise AttributeError(attr)
+
+    class Mesh:
+        def pv_getattr(self, attr):
+            if attr == 'index':
+                return Index()
+            raise AttributeError(attr)
+    exp = Obj(o.cls(EX))
+    ps = o.paths(lambda: o.I.call(o.method(exp, '_fail_if_ids_exceed_int32'), [Mesh()]))
+    o.shape('both id levels are examined', sorted(lims) == ['element_id', 'node_id'], sorted(lims))
+    fits = z3.And(*[z3.Implies(lens[l] > 0, z3.And(lims[l][0] >= -2**31, lims[l][1] <= 2**31 - 1)) for l in sorted(lims)])
+    rets = [p for p in ps if p.kind == 'return']
+    rais = [p for p in ps if p.kind == 'raise']
+    o.shape('the guard has returning and raising paths', bool(rets) and bool(rais), (len(rets), len(rais)))
+
+    def replay(item, model):
+        # native replay of the solver's id limits on the real method: a two-row mesh per level holding exactly the smallest and largest id of the model
+        import pandas as pd
+        from pylife.vmap import VMAPExport
+        def val(k, d):
+            v = model.get(k, d)
+            return int(round(v)) if v is not None else d
+        ids = {l: ([val(f'min_{l}', 1), val(f'max_{l}', 2)] if val(f'n_{l}', 2) > 0 else []) for l in ('element_id', 'node_id')}
+        n = max(len(v) for v in ids.values())
+        if any(len(v) not in (0, n) for v in ids.values()) or n == 0:
+            ids = {l: (v if v else [1, 2]) for l, v in ids.items()}
+        mesh = pd.DataFrame({'x': [0.0] * 2, 'y': [0.0] * 2}, index=pd.MultiIndex.from_arrays([ids['element_id'], ids['node_id']], names=['element_id', 'node_id']))
+        fit = all(-2**31 <= i <= 2**31 - 1 for v in ids.values() for i in v)
+        try:
+            VMAPExport._fail_if_ids_exceed_int32(object.__new__(VMAPExport), mesh)
+            raised = None
+        except Exception as e:   # noqa
+            raised = type(e).__name__
+        return {'reproduced': (raised is None) != fit, 'inputs': ids, 'outputs': {'raised': raised, 'every_id_fits_int32': fit}}
+    o.prove('returns only if every id of both levels fits int32', _all([(p.pc, fits) for p in rets]), replay=replay)
+    o.prove('raises only if some id does not fit int32', _all([(p.pc, z3.Not(fits)) for p in rais]), replay=replay)
+    o.prove('raises ValueError', z3.BoolVal(all(p.exc.exc_type == 'ValueError' for p in rais)))
+    o.canary('canary: ids up to 2^31 are accepted', _all([(p.pc, z3.Not(z3.And(*[z3.Implies(lens[l] > 0, z3.And(lims[l][0] >= -2**31, lims[l][1] <= 2**31)) for l in sorted(lims)]))) for p in rais]))
